@@ -145,6 +145,13 @@ func GroupRec(typ uint64, nsrc int) *wire.N {
 	return n
 }
 
+// GroupRecAux is a group record carrying aux 32-bit words of auxiliary data.
+func GroupRecAux(typ uint64, nsrc, aux int) *wire.N {
+	n := GroupRec(typ, nsrc)
+	n.Set("AuxDataLen", uint64(aux)).SetB("AuxData", Pat(4*aux, 11))
+	return n
+}
+
 func Igmp3Report(recs ...*wire.N) *wire.N {
 	n := wire.New("igmp3r").Set("Type", 0x22).Set("Checksum", PatU(2, 3)).Set("NumberOfGroups", uint64(len(recs)))
 	if len(recs) > 0 {
@@ -245,6 +252,10 @@ func Packets(thorough bool, yield func(n *wire.N)) {
 	for ns := 0; ns <= 3; ns++ {
 		yield(Igmp3Query(ns, 1, 2))
 		yield(Igmp3Report(GroupRec(1, ns)))
+	}
+	for _, aux := range []int{1, 2} {
+		yield(GroupRecAux(2, 1, aux))
+		yield(Igmp3Report(GroupRecAux(3, 0, aux), GroupRec(1, 2)))
 	}
 	for nr := 0; nr <= 3; nr++ {
 		var recs []*wire.N
